@@ -37,8 +37,10 @@ def prio_text(p):
 # pattern alternatives: structured, so that the last-step shape (model input) and the section 5.5
 # default priority (oracle input) are known without parsing
 
-def alt(text, kind, attr=False, name=None, multi=False, k2=False):
-    return {"text": text, "kind": kind, "attr": attr, "name": name, "multi": multi, "k2": k2}
+def alt(text, kind, attr=False, name=None, multi=False, k2=False, steps=False, pred=None):
+    """multi: several steps or a predicate (what getTargetData looks at); steps: several steps;
+    pred: None | "pos" (positional predicate) | "bool" """
+    return {"text": text, "kind": kind, "attr": attr, "name": name, "multi": multi, "k2": k2, "steps": steps, "pred": pred}
 
 
 def gen_step(r, allow_fn=True):
@@ -92,15 +94,15 @@ def gen_alt(r, k2=False):
     c = r.random()
     if c < 0.35:
         pred = r.choice(["[1]", "[@x]", "[b]", "[last()]", "[not(@y)]", "[.='t1']", "[2]"])
-        return dict(a, text=t + pred, multi=True)
+        return dict(a, text=t + pred, multi=True, pred="pos" if pred in ("[1]", "[2]", "[last()]") else "bool")
     if c < 0.75:
         lead = r.choice(["a/", "b/", "*/", "d/", "c/", "/", "a/b/", "p:a/", "*[@x]/", "key('ke','v')/"])
         if lead == "/" and a["attr"]:
             lead = "*/"
-        return dict(a, text=lead + t, multi=True)
+        return dict(a, text=lead + t, multi=True, steps=True)
     lead = r.choice(["a/", "*/", "b/"])     # no '//': the matcher's treatment of '//' is C09's subject (K14, K15, '//a' on the document element)
     pred = r.choice(["[1]", "[@x]", "[last()]"])
-    return dict(a, text=lead + t + pred, multi=True)
+    return dict(a, text=lead + t + pred, multi=True, steps=True, pred="pos" if pred != "[@x]" else "bool")
 
 
 def spec_default_priority(a):
@@ -129,43 +131,55 @@ def target_tokens(a, facts):
     tn = ("N%d" % NAME_ID[a["name"]]) if n == "name" else TN[n]
     tt = {"axis": "a" if a["attr"] else "e", "eOther": "o", "eAny": "y", "eElement": "e", "eAttribute": "a"}[t]
     sc = facts["multi"] if a["multi"] else s
-    return "%s %s %d" % (tn, tt, SC[sc])
+    # run-time score (XPath::stepPattern): several steps or a positional predicate -> eMatchScoreOther,
+    # otherwise the score of the node test; '/' and id()/key() -> eMatchScoreOther
+    rsc = "ScOther" if (a["steps"] or a["pred"] == "pos" or a["kind"] in ("root", "fn")) else s
+    return "%s %s %d %d" % (tn, tt, SC[sc], SC[rsc])
 
 
 # ---------------------------------------------------------------------------------------------
 # rule sets
 
-def gen_template(r, tid, k1=False, k2=False, pool=None):
+def gen_template(r, tid, k1=False, k2=False, pool=None, k3=False, k4=False):
     n_alt = r.choice([1, 1, 1, 2, 2, 3])
     explicit = r.random() < 0.4
     for _ in range(50):
-        if pool and r.random() < 0.5:
+        if k1 and r.random() < 0.4:
+            a0 = gen_alt(r)
+            alts = [a0, r.choice([alt("*", "wild"), alt("node()", "node"), alt("@*", "wild", True), alt("text()", "text")])]
+            r.shuffle(alts)
+        elif pool and r.random() < 0.5:
             alts = [dict(x) for x in r.choice(pool)]    # same pattern as an earlier template (ties)
         else:
             alts = [gen_alt(r, k2) for _ in range(n_alt)]
         uniform = len({spec_default_priority(x) for x in alts}) == 1
-        if explicit or uniform or k1:
+        rt_ok = not any(x["pred"] == "bool" and not x["steps"] for x in alts)
+        if explicit or ((uniform or k1) and (rt_ok or k4)):
             break
         n_alt = 1
     if pool is not None:
         pool.append(alts)
-    return {"id": tid, "alts": alts, "mode": r.choice([None, None, None, "m1", "m1", "m2"]),
+    if k3 and r.random() < 0.6:
+        alts = [r.choice([alt("p:a", "name", False, "a"), alt("p:*", "nswild"), alt("@p:x", "name", True, "x"), alt("p:b", "name", False, "b")])]
+        return {"id": tid, "alts": alts, "mode": r.choice([None, None, "m1"]), "prio": r.choice([None, None, 0, 500]),
+                "ai": r.random() < 0.3, "rebind": r.random() < 0.5}
+    return {"id": tid, "alts": alts, "mode": r.choice([None, None, None, "m1", "m1", "m1", "m2", "m2"]),
             "prio": r.choice(PRIOS) if explicit else None, "ai": r.random() < 0.5}
 
 
-def gen_sheet(r, depth, budget, counter, k1, k2, pool, included=False):
+def gen_sheet(r, depth, budget, counter, k1, k2, pool, included=False, k3=False, k4=False):
     """{"items": [template | {"incl": sheet-like items}], "imports": [...]}"""
     sheet = {"items": [], "imports": []}
     if not included and depth < 4:
         while budget[0] > 0 and r.random() < (0.75 if depth == 0 else 0.5) and len(sheet["imports"]) < 3:
             budget[0] -= 1
-            sheet["imports"].append(gen_sheet(r, depth + 1, budget, counter, k1, k2, pool))
-    for _ in range(r.choice([0, 1, 2, 3, 4] if depth else [1, 2, 3, 4, 5])):
+            sheet["imports"].append(gen_sheet(r, depth + 1, budget, counter, k1, k2, pool, k3=k3, k4=k4))
+    for _ in range(r.choice([0, 1, 2, 3, 4, 6] if depth else [2, 3, 4, 5, 7, 9])):
         if r.random() < 0.2 and depth < 6:
-            sheet["items"].append({"incl": gen_sheet(r, depth + 2, budget, counter, k1, k2, pool, included=True)["items"]})
+            sheet["items"].append({"incl": gen_sheet(r, depth + 2, budget, counter, k1, k2, pool, included=True, k3=k3, k4=k4)["items"]})
         else:
             counter[0] += 1
-            sheet["items"].append(gen_template(r, counter[0], k1, k2, pool))
+            sheet["items"].append(gen_template(r, counter[0], k1, k2, pool, k3, k4))
     return sheet
 
 
@@ -200,8 +214,8 @@ def template_xml(t):
     else:
         body = "[T%d%s]" % (t["id"], "<xsl:apply-imports/>" if t["ai"] else "")
     pat = "|".join(a["text"] for a in t["alts"])
-    return '<xsl:template match="%s"%s%s>%s</xsl:template>' % (
-        pat, ' mode="%s"' % t["mode"] if t["mode"] else "",
+    return '<xsl:template match="%s"%s%s%s>%s</xsl:template>' % (
+        pat, ' xmlns:p="urn:u2"' if t.get("rebind") else "", ' mode="%s"' % t["mode"] if t["mode"] else "",
         ' priority="%s"' % prio_text(t["prio"]) if t["prio"] is not None else "", body)
 
 
@@ -301,8 +315,9 @@ def probe_sheet(alts):
           '{count(self::processing-instruction())}{count(..)}" a="{count(../@*[count(.|current())=1])}" l="{local-name()}" '
           'i="{generate-id()}" u="{generate-id(..)}" v="{.}"/></xsl:for-each>') % ALL
     for j, a in enumerate(alts):
-        s += ('<p><xsl:variable name="s" select="%s"/><xsl:variable name="c" select="count($s)"/><xsl:for-each select="%s">'
-              '<xsl:value-of select="number(count($s|.)=$c)"/></xsl:for-each></p>') % (defining_expr(a).replace('"', "&quot;"), ALL)
+        s += ('<p><xsl:variable name="s" select="%s"%s/><xsl:variable name="c" select="count($s)"/><xsl:for-each select="%s">'
+              '<xsl:value-of select="number(count($s|.)=$c)"/></xsl:for-each></p>') % (
+                  defining_expr(a).replace('"', "&quot;"), ' xmlns:p="urn:u2"' if a.get("rebind") else "", ALL)
     s += '</out></xsl:template></xsl:stylesheet>'
     return s
 
@@ -430,6 +445,7 @@ def assign_ids(sheet):
             txt = "|".join(a["text"] for a in t["alts"])
             t["text_id"] = texts.setdefault(txt, len(texts))
             for a in t["alts"]:
+                a["rebind"] = bool(t.get("rebind"))
                 a["pid"] = pid[0]
                 pid[0] += 1
                 alts.append(a)
@@ -467,14 +483,14 @@ def queries_of(case, quiet_modes=(1,)):
     return qs
 
 
-def make_case(ctx, cid, k1=False, k2=False, sheet=None, doc=None):
+def make_case(ctx, cid, k1=False, k2=False, sheet=None, doc=None, k3=False, k4=False):
     r = ctx.rng
     if sheet is None:
         counter = [0]
         pool = []
-        sheet = gen_sheet(r, 0, [r.choice([0, 1, 2, 3, 5])], counter, k1, k2, pool)
+        sheet = gen_sheet(r, 0, [r.choice([0, 1, 2, 3, 5])], counter, k1, k2, pool, k3=k3, k4=k4)
     sheet["items"].insert(0, dict(T0, alts=[dict(T0["alts"][0])]))
-    return {"id": cid, "sheet": sheet, "doc": doc if doc is not None else gen_doc(r), "k1": k1, "k2": k2}
+    return {"id": cid, "sheet": sheet, "doc": doc if doc is not None else gen_doc(r), "k1": k1, "k2": k2, "k3": k3, "k4": k4}
 
 
 def has_k1(case):
@@ -495,12 +511,65 @@ def has_k2(case):
     return False
 
 
-def evaluate(ctx, cases, model_exe, facts):
+def has_k4(case):
+    """a template without priority attribute with a single-step alternative under a non-positional
+    predicate: its run-time score is that of the bare node test"""
+    for t in case["tmpl_by_id"].values():
+        if t["prio"] is None and any(a["pred"] == "bool" and not a["steps"] for a in t["alts"]):
+            return True
+    return False
+
+
+def has_k3(case):
+    """two templates of one stylesheet level with the same match string and priority attribute but
+    different namespace bindings (different patterns)"""
+    for _, sh in all_sheets(case["sheet"]):
+        seen = {}
+        for t in flatten_items(sh["items"]):
+            key = ("|".join(a["text"] for a in t["alts"]), t["prio"])
+            if key in seen and seen[key] != bool(t.get("rebind")):
+                return True
+            seen.setdefault(key, bool(t.get("rebind")))
+    return False
+
+
+def limited(exe):
+    """wrapper script: the same driver under an address-space limit (a wrong template choice can make
+    apply-imports recurse without bound: that must end as a crash of the case, not eat the machine)"""
+    w = exe + "_lim.sh"
+    txt = "#!/bin/sh\nulimit -v 3000000\nulimit -s 65536\nexec %s \"$@\"\n" % exe
+    if not os.path.exists(w) or open(w).read() != txt:
+        with open(w, "w") as f:
+            f.write(txt)
+        os.chmod(w, 0o755)
+    return w
+
+
+def run_nonquiet(cases_lines_ids, exe):
+    """harness/tmpl.cpp: -> {id: ("ok", bytes, warnings) | ("err", ...) | ("crash",)}"""
+    lines = [l for _, l in cases_lines_ids]
+    rc, res, raw = core.run_lines_parallel(exe, lines, sep="|", timeout=600)
+    out = {}
+    for cid, _ in cases_lines_ids:
+        r = res.get(cid)
+        if r is None:
+            out[cid] = ("crash",)
+            continue
+        f = r.split("|")
+        if f[0] == "ok":
+            out[cid] = ("ok", bytes.fromhex(f[1]), int(f[2]) if len(f) > 2 else 0)
+        else:
+            out[cid] = ("err", f[1], bytes.fromhex(f[2]).decode("utf-8", "replace") if len(f) > 2 else "")
+    return out
+
+
+def evaluate(ctx, cases, model_exe, facts, exes=None):
     """-> (corr mismatches, oracle failures) ; fills coverage"""
+    exes = exes or {}
     # 1. probe
     for c in cases:
         c["tmpl_by_id"], c["sheet_path_of"], c["alts"] = assign_ids(c["sheet"])
-    probe = xsltrun.run([{"id": c["id"], "sheet": probe_sheet(c["alts"]), "source": c["doc"]} for c in cases])
+    probe = xsltrun.run([{"id": c["id"], "sheet": probe_sheet(c["alts"]), "source": c["doc"]} for c in cases], exe=exes.get("xslt"))
     good = []
     problems = []
     for c in cases:
@@ -519,29 +588,41 @@ def evaluate(ctx, cases, model_exe, facts):
         main, files = sheet_files(c["sheet"])
         c["main"], c["files"] = main, files
         runs.append({"id": c["id"], "sheet": main, "source": c["doc"], "files": files})
-    res = xsltrun.run(runs)
+    res = xsltrun.run(runs, exe=exes.get("xslt"))
+    res_nq = {}
+    if exes.get("tmpl"):
+        res_nq = run_nonquiet([(r["id"], xsltrun.line_of(dict(r, opts="nonquiet"))) for r in runs], exes["tmpl"])
     # 3. the model
     mres = {}
     if model_exe:
         for c in good:
-            c["queries"] = queries_of(c)
+            c["queries"] = queries_of(c, (1, 0) if res_nq else (1,))
         rc, mres, raw = core.run_lines_parallel(model_exe, [model_line(c, facts, c["queries"]) for c in good])
     corr, orc = [], []
-    for c in good:
-        r = res[c["id"]]
-        nodes = c["nodes"]
-        ctx.count("sheets:%d" % len(all_sheets(c["sheet"])))
-        ctx.count("class:" + ("k1" if c["k1"] else "k2" if c["k2"] else "guarded"))
+
+    def observed(r):
         if r[0] != "ok":
-            orc.append({"case": c, "what": "transformation failed: %r" % (r,), "known": None})
-            continue
+            return None, "transformation failed: %r" % (r[:3],)
         obs = [unesc(x or "") for x in re.findall(r"<r>(.*?)</r>|<r/>", r[1].decode("utf-8"), flags=re.S)]
         if len(obs) != len(nodes) * len(MODES):
-            orc.append({"case": c, "what": "output not understood (%d <r> for %d nodes)" % (len(obs), len(nodes)), "known": None})
+            return None, "output not understood (%d <r> for %d nodes)" % (len(obs), len(nodes))
+        return obs, None
+    for c in good:
+        nodes = c["nodes"]
+        ctx.count("sheets:%d" % len(all_sheets(c["sheet"])))
+        ctx.count("class:" + ("k1" if c["k1"] else "k2" if c["k2"] else "k3" if c.get("k3") else "k4" if c.get("k4") else "guarded"))
+        obs, err = observed(res[c["id"]])
+        if err:
+            orc.append({"case": c, "what": err, "known": None})
             continue
-        # oracle
+        obs_nq = None
+        if res_nq:
+            obs_nq, err = observed(res_nq[c["id"]])
+            if err:
+                orc.append({"case": c, "what": "non-quiet run: " + err, "known": None, "nq": True})
+        # oracle A: section 5.5 against the library (quiet path, XalanTransformer)
         och = oracle_chooser(c)
-        k1, k2 = has_k1(c), has_k2(c)
+        k1, k2, k3, k4 = has_k1(c), has_k2(c), has_k3(c), has_k4(c)
         nontrivial = 0
         for i in range(len(nodes)):
             for mi, m in enumerate(MODES):
@@ -558,6 +639,14 @@ def evaluate(ctx, cases, model_exe, facts):
                                 "what": "node #%d (%s %s) mode %s: output %r, section 5.5 gives %r" % (
                                     i, nodes[i]["kind"], nodes[i]["lname"], m, got, want),
                                 "known": "K1" if k1 else "K2" if k2 else None})
+                # oracle B: conflict reporting must not change the choice (library against itself)
+                if obs_nq is not None:
+                    gq = obs_nq[i * len(MODES) + mi]
+                    if gq != got:
+                        orc.append({"case": c, "node": i, "mode": m, "want": got, "got": gq, "nq": True,
+                                    "what": "node #%d (%s %s) mode %s: with conflict reporting on the output is %r, without it %r" % (
+                                        i, nodes[i]["kind"], nodes[i]["lname"], m, gq, got),
+                                    "known": "K-new-1" if k1 else "K-new-2" if k3 else "K-new-3" if k4 else None})
         ctx.cov["distinct_nontrivial"] += nontrivial
         # correspondence
         if model_exe:
@@ -569,25 +658,29 @@ def evaluate(ctx, cases, model_exe, facts):
             groups = [x.split(",") for x in body.split(";")]
             table = {}
             for q, gvals in zip(c["queries"], groups):
-                table[(tuple(q[1]), q[2], q[3])] = [int(v) for v in gvals]
+                table[(q[0], tuple(q[1]), q[2], q[3])] = [int(v) for v in gvals]
+            for quiet, o in ((1, obs), (0, obs_nq)):
+                if o is None:
+                    continue
 
-            def mch(path, only, mode, i):
-                return table[(tuple(path), only, mode)][i]
-            for i in range(len(nodes)):
-                for mi, m in enumerate(MODES):
-                    ctx.cov["traces_validated_against_impl"] += 1
-                    want = render(nodes, c["tmpl_by_id"], c["sheet_path_of"], mch, i, m, mch((), 0, m, i))
-                    got = obs[i * len(MODES) + mi]
-                    if want != got:
-                        corr.append({"case": c["id"], "what": "node #%d (%s %s) mode %s: library %r, model %r" % (
-                            i, nodes[i]["kind"], nodes[i]["lname"], m, got, want), "replay": replay_text(c)})
+                def mch(path, only, mode, i):
+                    return table[(quiet, tuple(path), only, mode)][i]
+                for i in range(len(nodes)):
+                    for mi, m in enumerate(MODES):
+                        ctx.cov["traces_validated_against_impl"] += 1
+                        want = render(nodes, c["tmpl_by_id"], c["sheet_path_of"], mch, i, m, mch((), 0, m, i))
+                        got = o[i * len(MODES) + mi]
+                        if want != got:
+                            corr.append({"case": c["id"], "what": "%s path, node #%d (%s %s) mode %s: library %r, model %r" % (
+                                "quiet" if quiet else "non-quiet", i, nodes[i]["kind"], nodes[i]["lname"], m, got, want),
+                                "replay": replay_text(c)})
             # the model against its own theorem: under the two guards the choice is the section 5.5 maximum
             uni, filed = g.split(" ")
             bgroups = [x.split(",") for x in b.split(";")]
             for mi, m in enumerate(MODES):
                 for i in range(len(nodes)):
                     if uni == "1" and filed[i] == "1":
-                        mv = table[((), 0, m)][i]
+                        mv = table[(1, (), 0, m)][i]
                         bv = int(bgroups[mi][i])
                         if (bv == -9) != (mv < 0) or (bv != -9 and bv != mv):
                             corr.append({"case": c["id"], "what": "model contradicts find_template_spec_partial at node %d mode %s: %d vs %d" % (i, m, mv, bv)})
@@ -601,16 +694,30 @@ def replay_text(c, extra=""):
 
 K1_SHEET = {"items": [
     {"id": 1, "alts": [alt("a", "name", False, "a")], "mode": None, "prio": None, "ai": False},
-    {"id": 2, "alts": [alt("a[b]", "name", False, "a", multi=True), alt("*", "wild")], "mode": None, "prio": None, "ai": False}],
+    {"id": 2, "alts": [alt("a[b]", "name", False, "a", multi=True, pred="bool"), alt("*", "wild")], "mode": None, "prio": None, "ai": False}],
     "imports": []}
 K2_SHEET = {"items": [
     {"id": 1, "alts": [alt("key('k','v')", "fn", k2=True)], "mode": None, "prio": None, "ai": False}], "imports": []}
 
 
+K3_SHEET = {"items": [
+    {"id": 1, "alts": [alt("p:a", "name", False, "a")], "mode": None, "prio": None, "ai": False},
+    {"id": 2, "alts": [alt("p:a", "name", False, "a")], "mode": None, "prio": None, "ai": False, "rebind": True}],
+    "imports": []}
+
+
+K4_SHEET = {"items": [
+    {"id": 1, "alts": [alt("a", "name", False, "a")], "mode": None, "prio": 250, "ai": False},
+    {"id": 2, "alts": [alt("a[@x]", "name", False, "a", multi=True, pred="bool")], "mode": None, "prio": None, "ai": False}],
+    "imports": []}
+
+
 def corpus_cases(ctx):
     import copy
     return [make_case(ctx, "corpusK1", k1=True, sheet=copy.deepcopy(K1_SHEET), doc="<d><a/><a><b/></a></d>"),
-            make_case(ctx, "corpusK2", k2=True, sheet=copy.deepcopy(K2_SHEET), doc="<d><a>t1</a><!--c--><?pi1 q?></d>")]
+            make_case(ctx, "corpusK2", k2=True, sheet=copy.deepcopy(K2_SHEET), doc="<d><a>t1</a><!--c--><?pi1 q?></d>"),
+            make_case(ctx, "corpusK4", k4=True, sheet=copy.deepcopy(K4_SHEET), doc='<d><a x="1"/></d>'),
+            make_case(ctx, "corpusK3", k3=True, sheet=copy.deepcopy(K3_SHEET), doc='<d><p:a xmlns:p="urn:u1"/></d>')]
 
 
 def run(ctx):
@@ -618,7 +725,7 @@ def run(ctx):
         "pattern matching is abstract in the model: 'alternative P alone matches node n' is an input (taken from the library through P's defining expression //P); a union matches iff one of its alternatives does (XPath::doGetMatchScore)",
         "priorities are modelled as integers in units of 1/1000 (the generator writes at most three decimals; DoubleSupport::toDouble is monotone on them); priority attributes that are not numbers are out of scope",
         "simplified (literal-result-element) stylesheets are out of scope (m_isWrapperless)",
-        "only the quiet path of findTemplate is reachable through XalanTransformer (XSLTEngineImpl::m_quietConflictWarnings is true and has no public setter there); the non-quiet path is modelled and compared with the quiet one by theorems only",
+        "the quiet path of findTemplate is observed through XalanTransformer, the conflict-reporting path through XSLTEngineImpl::setQuietConflictWarnings(false) (harness/tmpl.cpp, the set-up of TestXSLT/process.cpp)",
     ]
     ok_lib, liblog = core.build_lib("plain")
     if not ok_lib:
@@ -639,23 +746,28 @@ def run(ctx):
     if not ok_h:
         ctx.broken.append("xslt harness does not compile against the working tree: " + hlog[-500:])
         return ctx.finish(LEVEL)
+    exe_nq, ok_n, nlog = core.build_harness("tmpl", "plain")
+    if not ok_n:
+        ctx.broken.append("harness/tmpl.cpp (non-quiet driver) does not compile against the working tree: " + nlog[-500:])
+        return ctx.finish(LEVEL)
+    exes = {"xslt": limited(exe), "tmpl": limited(exe_nq)}
 
     known = {k["key"]: k for k in ctx.known.for_property("C10")}
-    n_guarded, n_k = (110, 16) if not ctx.thorough else (1500, 150)
+    n_guarded, n_k = (700, 80) if not ctx.thorough else (40000, 2000)
 
     def batch(n_guarded, n_k, tag):
         cs = []
         for i in range(n_guarded):
             cs.append(make_case(ctx, "%sg%d" % (tag, i)))
         for i in range(n_k):
-            cs.append(make_case(ctx, "%sk%d" % (tag, i), k1=(i % 2 == 0), k2=(i % 2 == 1)))
+            cs.append(make_case(ctx, "%sk%d" % (tag, i), k1=(i % 4 == 0), k2=(i % 4 == 1), k3=(i % 4 == 2), k4=(i % 4 == 3)))
         return cs
     cases = corpus_cases(ctx) + batch(n_guarded, n_k, "")
-    corr, orc = evaluate(ctx, cases, model, facts)
+    corr, orc = evaluate(ctx, cases, model, facts, exes)
     new = [o for o in orc if not (o["known"] and o["known"] in known)]
     if (corr or not proved or not model) and not new and not ctx.thorough:
         ctx.escalated = True
-        c2, o2 = evaluate(ctx, batch(1200, 0, "w"), model, facts)
+        c2, o2 = evaluate(ctx, batch(3000, 0, "w"), model, facts, exes)
         corr += c2
         orc += o2
         new = [o for o in orc if not (o["known"] and o["known"] in known)]
@@ -680,7 +792,7 @@ def run(ctx):
         o = new[0]
         extra = "".join("# %s\n" % x["what"] for x in new[:12])
         ctx.violation("oracle", replay_text(o["case"], extra + "EXPECT %s\n" % json.dumps(
-            {"node": o.get("node"), "mode": o.get("mode"), "want": o.get("want")})))
+            {"node": o.get("node"), "mode": o.get("mode"), "want": o.get("want"), "nq": bool(o.get("nq"))})))
     ctx.notes["oracle_failures"] = len(new)
     return ctx.finish(LEVEL, explanation="theorems over the Gallina model of the pattern tables and findTemplate + generated facts from XPath.cpp/Stylesheet.cpp + correspondence of the extracted model with whole transformations + independent section 5.5 oracle")
 
@@ -689,23 +801,36 @@ def replay(ctx, path):
     core.build_lib("plain")
     txt = open(path).read()
     d = json.loads(re.search(r"^REPLAY (.*)$", txt, flags=re.M).group(1))
-    r = xsltrun.run([{"id": "replay", "sheet": d["main.xsl"], "source": d["main.xml"], "files": d.get("files") or {}}])["replay"]
-    print("result:", r[0])
-    rc = 0
-    if r[0] == "ok":
-        obs = [unesc(x or "") for x in re.findall(r"<r>(.*?)</r>|<r/>", r[1].decode("utf-8"), flags=re.S)]
-        print("outputs per (node, mode) in the order of '%s' x %s:" % (ALL, MODES))
-        for i in range(0, len(obs), len(MODES)):
-            print("  node #%d: %s" % (i // len(MODES), obs[i:i + len(MODES)]))
-        m = re.search(r"^EXPECT (.*)$", txt, flags=re.M)
-        if m:
-            e = json.loads(m.group(1))
-            if e.get("node") is not None:
-                got = obs[e["node"] * len(MODES) + MODES.index(e["mode"])]
-                print("node #%d mode %s: got %r, section 5.5 gives %r -> %s" % (e["node"], e["mode"], got, e["want"],
-                                                                               "FAILS" if got != e["want"] else "passes"))
-                rc = 1 if got != e["want"] else 0
-    else:
+    m = re.search(r"^EXPECT (.*)$", txt, flags=re.M)
+    e = json.loads(m.group(1)) if m else {}
+    case = {"id": "replay", "sheet": d["main.xsl"], "source": d["main.xml"], "files": d.get("files") or {}}
+    exe, ok_h, hlog = xsltrun.build()
+    r = xsltrun.run([case], exe=limited(exe))["replay"]
+    print("XalanTransformer (quiet path):", r[0])
+
+    def obs_of(r):
+        return [unesc(x or "") for x in re.findall(r"<r>(.*?)</r>|<r/>", r[1].decode("utf-8"), flags=re.S)]
+    if r[0] != "ok":
         print(r)
-        rc = 1
-    return rc
+        return 1
+    obs = obs_of(r)
+    print("outputs per (node, mode) in the order of '%s' x %s:" % (ALL, MODES))
+    for i in range(0, len(obs), len(MODES)):
+        print("  node #%d: %s" % (i // len(MODES), obs[i:i + len(MODES)]))
+    if e.get("node") is None:
+        return 0
+    k = e["node"] * len(MODES) + MODES.index(e["mode"])
+    if e.get("nq"):
+        exe_nq, ok_n, nlog = core.build_harness("tmpl", "plain")
+        rq = run_nonquiet([("replay", xsltrun.line_of(dict(case, opts="nonquiet")))], limited(exe_nq))["replay"]
+        if rq[0] != "ok":
+            print("conflict reporting on:", rq)
+            return 1
+        got = obs_of(rq)[k]
+        print("node #%d mode %s: with conflict reporting on %r, without it %r -> %s" % (
+            e["node"], e["mode"], got, obs[k], "FAILS" if got != obs[k] else "passes"))
+        return 1 if got != obs[k] else 0
+    got = obs[k]
+    print("node #%d mode %s: got %r, section 5.5 gives %r -> %s" % (e["node"], e["mode"], got, e["want"],
+                                                                   "FAILS" if got != e["want"] else "passes"))
+    return 1 if got != e["want"] else 0
